@@ -1,8 +1,8 @@
 (** C16 — Version vectors form a lattice: Compare is a partial order, Merge its join.
     This file holds statements only; every proof is [exact <lemma>] (lemmas in Cluster/VVProofs.v). *)
 From Coq Require Import List NArith ZArith.
-From stdpp Require Import gmap.
-From Vivid Require Import Codec.Prim Cluster.VV Cluster.VVProofs.
+From stdpp Require Import gmap sorting.
+From Vivid Require Import Codec.Prim Cluster.VV Cluster.VVProofs Cluster.VVHeap Cluster.VVHeapProofs Cluster.VVWireProofs Cluster.VVAtomic Cluster.VVAtomicProofs Cluster.VVRun.
 Local Open Scope N_scope.
 
 (** Compare decides the pointwise order of the counters (absent = 0) *)
@@ -92,6 +92,338 @@ Proof.
   apply lookup_singleton_Some in H as [<- <-]. split; [reflexivity|vm_compute; discriminate].
 Qed.
 
+
+(** * "Operations never modify their operands" — on the heap-level model (Cluster/VVHeap.v)
+
+    A vector is a struct value whose map and cached slice are references into a heap ([vobj], [heap]); every
+    method is a heap program; [omap h v] is the abstract value of [v] in [h]; [hext h h'] says that every
+    location allocated in [h] still holds in [h'] what it held in [h]; [iter] is the order in which the Go
+    runtime lets [range] visit a map (ANY permutation, possibly a different one for every loop).
+    Every method theorem has the same shape: for every heap, every live operand and every iteration order the
+    call (frame) writes only into locations it allocated itself, (refinement) returns what the functional
+    model of VV.v computes from the operands' abstract values, and its result is a live object. *)
+
+(** what the frame gives: a live object keeps its abstract value and stays live *)
+Theorem C16_frame_keeps_values h h' v :
+  hext h h' -> obj_ok h v -> omap h' v = omap h v /\ obj_ok h' v.
+Proof. exact (fun X O => conj (omap_hext h h' v X O) (obj_ok_hext h h' v X O)). Qed.
+
+Theorem C16_heap_clone iter v h :
+  (forall t m, iter t m ≡ₚ map_to_list m) -> heap_wf h -> obj_ok h v ->
+  hext h (snd (h_clone iter v h)) /\ heap_wf (snd (h_clone iter v h)) /\
+  obj_ok (snd (h_clone iter v h)) (fst (h_clone iter v h)) /\
+  omap (snd (h_clone iter v h)) (fst (h_clone iter v h)) = omap h v /\
+  fresh_obj h (fst (h_clone iter v h)).
+Proof. exact (fun Hi => h_clone_spec iter Hi v h). Qed.
+
+Theorem C16_heap_increment iter v k h :
+  (forall t m, iter t m ≡ₚ map_to_list m) -> heap_wf h -> obj_ok h v ->
+  hext h (snd (h_inc iter v k h)) /\ heap_wf (snd (h_inc iter v k h)) /\
+  match fst (h_inc iter v k h) with
+  | Ok r => obj_ok (snd (h_inc iter v k h)) r /\ vinc (omap h v) k = Ok (omap (snd (h_inc iter v k h)) r) /\
+            fresh_obj h r
+  | Err e => vinc (omap h v) k = Err e
+  end.
+Proof. exact (fun Hi => h_inc_spec iter Hi v k h). Qed.
+
+Theorem C16_heap_merge iter v o h :
+  (forall t m, iter t m ≡ₚ map_to_list m) -> heap_wf h -> obj_ok h v -> obj_ok h o ->
+  hext h (snd (h_merge iter v o h)) /\ heap_wf (snd (h_merge iter v o h)) /\
+  obj_ok (snd (h_merge iter v o h)) (fst (h_merge iter v o h)) /\
+  omap (snd (h_merge iter v o h)) (fst (h_merge iter v o h)) = vmerge (omap h v) (omap h o) /\
+  fresh_obj h (fst (h_merge iter v o h)).
+Proof. exact (fun Hi => h_merge_spec iter Hi v o h). Qed.
+
+(** Compare (two passes, early returns) writes nothing and decides [vcompare] of the abstract values *)
+Theorem C16_heap_compare iter v o h :
+  (forall t m, iter t m ≡ₚ map_to_list m) -> heap_wf h ->
+  hext h (snd (h_compare iter v o h)) /\ heap_wf (snd (h_compare iter v o h)) /\
+  fst (h_compare iter v o h) = vcompare (omap h v) (omap h o).
+Proof. exact (fun Hi => h_compare_spec iter Hi v o h). Qed.
+
+(** Compact returns ITS OPERAND (same map object) when there is nothing to drop, else a fresh object *)
+Theorem C16_heap_compact iter v h :
+  (forall t m, iter t m ≡ₚ map_to_list m) -> heap_wf h -> obj_ok h v ->
+  hext h (snd (h_compact iter v h)) /\ heap_wf (snd (h_compact iter v h)) /\
+  obj_ok (snd (h_compact iter v h)) (fst (h_compact iter v h)) /\
+  omap (snd (h_compact iter v h)) (fst (h_compact iter v h)) = vcompact (omap h v) /\
+  (fst (h_compact iter v h) = v \/ fresh_obj h (fst (h_compact iter v h))).
+Proof. exact (fun Hi => h_compact_spec iter Hi v h). Qed.
+
+(** PruneWithMax: also the CALLER'S SLICE [s] reads after the call as it read before (it is copied before it is
+    sorted) *)
+Theorem C16_heap_prune iter v s maxe h :
+  (forall t m, iter t m ≡ₚ map_to_list m) -> heap_wf h -> obj_ok h v -> slice_ok h s ->
+  hext h (snd (h_prune_max iter v (Some s) maxe h)) /\ heap_wf (snd (h_prune_max iter v (Some s) maxe h)) /\
+  obj_ok (snd (h_prune_max iter v (Some s) maxe h)) (fst (h_prune_max iter v (Some s) maxe h)) /\
+  omap (snd (h_prune_max iter v (Some s) maxe h)) (fst (h_prune_max iter v (Some s) maxe h))
+    = vprune_max (omap h v) (strs_of h s) maxe /\
+  fresh_obj h (fst (h_prune_max iter v (Some s) maxe h)) /\
+  strs_of (snd (h_prune_max iter v (Some s) maxe h)) s = strs_of h s.
+Proof. exact (fun Hi => h_prune_max_spec iter Hi v s maxe h). Qed.
+
+(** SortedEntries returns the entries in the writer's order; the returned slice is the object's own cache or a
+    freshly allocated array *)
+Theorem C16_heap_sorted_entries iter v h :
+  (forall t m, iter t m ≡ₚ map_to_list m) -> heap_wf h -> obj_ok h v ->
+  hext h (snd (h_sorted_entries iter v h)) /\ heap_wf (snd (h_sorted_entries iter v h)) /\
+  slice_ents (snd (h_sorted_entries iter v h)) (fst (h_sorted_entries iter v h)) = ventries (omap h v) /\
+  (forall s, fst (h_sorted_entries iter v h) = Some s ->
+     (o_ents v = Some s \/ h_next h <= s_arr s) /\ s_arr s < h_next (snd (h_sorted_entries iter v h))).
+Proof. exact (fun Hi => h_sorted_entries_spec iter Hi v h). Qed.
+
+Theorem C16_heap_write iter v h :
+  (forall t m, iter t m ≡ₚ map_to_list m) -> heap_wf h -> obj_ok h v ->
+  hext h (snd (h_write iter v h)) /\ heap_wf (snd (h_write iter v h)) /\
+  fst (h_write iter v h) = vwrite (omap h v).
+Proof. exact (fun Hi => h_write_spec iter Hi v h). Qed.
+
+Theorem C16_heap_read bs h :
+  heap_wf h ->
+  hext h (snd (h_read bs h)) /\ heap_wf (snd (h_read bs h)) /\
+  match vread bs with
+  | Ok (m, rest) => exists r, fst (h_read bs h) = Ok (r, rest) /\ obj_ok (snd (h_read bs h)) r /\
+                              omap (snd (h_read bs h)) r = m /\ fresh_obj h r
+  | Err e => fst (h_read bs h) = Err e
+  end.
+Proof. exact (h_read_spec bs h). Qed.
+
+(** ** Histories: one family of vector objects, any sequence of operations on any of them
+    ([sop]: Increment, Merge, Clone, Write+Read, Compact, SortedEntries, PruneWithMax, Compare; the harness
+    replays exactly these sessions on the real code, op 8 of [run_vv]) *)
+
+(** after any history the abstract values of the pool are the pool of the functional model *)
+Theorem C16_session_refines iter init ops :
+  (forall t m, iter t m ≡ₚ map_to_list m) ->
+  heap_wf (snd (fst (hsession iter init ops))) /\
+  Forall (obj_ok (snd (fst (hsession iter init ops)))) (fst (fst (hsession iter init ops))) /\
+  map (omap (snd (fst (hsession iter init ops)))) (fst (fst (hsession iter init ops)))
+    = frun ops [foldl ins_entry ∅ init].
+Proof. exact (fun Hi => hsession_refines iter Hi init ops). Qed.
+
+(** OPERANDS ARE NEVER MODIFIED: whatever is done later ([ops2]) to whichever vectors, every vector that exists
+    after [ops1] is still in the pool, has the abstract value it had, and every observer (SortedEntries, Write,
+    Compare) run on it in the LATER heap returns what the functional model computes from that value *)
+Theorem C16_operands_never_modified iter init ops1 ops2 :
+  (forall t m, iter t m ≡ₚ map_to_list m) ->
+  hext (snd (fst (hsession iter init ops1))) (snd (fst (hsession iter init (ops1 ++ ops2)))) /\
+  (exists suf, fst (fst (hsession iter init (ops1 ++ ops2))) = fst (fst (hsession iter init ops1)) ++ suf) /\
+  forall o, In o (fst (fst (hsession iter init ops1))) ->
+    omap (snd (fst (hsession iter init (ops1 ++ ops2)))) o = omap (snd (fst (hsession iter init ops1))) o /\
+    slice_ents (snd (h_sorted_entries iter o (snd (fst (hsession iter init (ops1 ++ ops2))))))
+               (fst (h_sorted_entries iter o (snd (fst (hsession iter init (ops1 ++ ops2))))))
+      = ventries (omap (snd (fst (hsession iter init ops1))) o) /\
+    fst (h_write iter o (snd (fst (hsession iter init (ops1 ++ ops2)))))
+      = vwrite (omap (snd (fst (hsession iter init ops1))) o) /\
+    (forall p, In p (fst (fst (hsession iter init (ops1 ++ ops2)))) ->
+       fst (h_compare iter o p (snd (fst (hsession iter init (ops1 ++ ops2)))))
+       = vcompare (omap (snd (fst (hsession iter init ops1))) o) (omap (snd (fst (hsession iter init (ops1 ++ ops2)))) p)).
+Proof. exact (fun Hi => hsession_never_modifies iter Hi init ops1 ops2). Qed.
+
+(** the cache branch of SortedEntries is dead code: no vector of any history carries a cached slice, and every
+    SortedEntries result is an array allocated by that very call *)
+Theorem C16_cache_never_filled iter init ops :
+  (forall t m, iter t m ≡ₚ map_to_list m) ->
+  forall o, In o (fst (fst (hsession iter init ops))) ->
+    o_ents o = None /\
+    forall s, fst (h_sorted_entries iter o (snd (fst (hsession iter init ops)))) = Some s ->
+              h_next (snd (fst (hsession iter init ops))) <= s_arr s.
+Proof. exact (fun Hi => hsession_cache_never_filled iter Hi init ops). Qed.
+
+(** the functional pool only grows at its end *)
+Theorem C16_functional_pool_append_only ops pool : exists suf, frun ops pool = pool ++ suf.
+Proof. exact (frun_suffix ops pool). Qed.
+
+(** ** AtomicVersionVector (the code since the repair 2f67bea: a pointer to an immutable boxed vector)
+
+    Sequential semantics on the heap model ([p] = the pointer the wrapper holds, [box_of p h] = the vector it
+    points to), then the concurrent semantics as a small-step machine (Cluster/VVAtomic.v). *)
+
+(** CompareAndSwap(old, new), no other goroutine in between: swaps iff the stored value is Equal to [old]; then
+    the wrapper points to a new box holding EXACTLY [new]; otherwise the wrapper is as it was. Only allocation. *)
+Theorem C16_atomic_cas iter p old new h :
+  (forall t m, iter t m ≡ₚ map_to_list m) -> heap_wf h -> cell_ok h p -> obj_ok h new ->
+  hext h (snd (a_cas iter p old new h)) /\ heap_wf (snd (a_cas iter p old new h)) /\
+  cell_ok (snd (a_cas iter p old new h)) (snd (fst (a_cas iter p old new h))) /\
+  match vcompare (omap h (box_of p h)) (omap h old) with
+  | VEqual => fst (fst (a_cas iter p old new h)) = true /\
+              box_of (snd (fst (a_cas iter p old new h))) (snd (a_cas iter p old new h)) = new
+  | _ => fst (fst (a_cas iter p old new h)) = false /\ snd (fst (a_cas iter p old new h)) = p
+  end.
+Proof. exact (fun Hi => a_cas_spec iter Hi p old new h). Qed.
+
+(** Increment(node), no other goroutine in between: an error of VersionVector.Increment (invalid node, counter at
+    the cap) is returned and the wrapper is as it was; otherwise the returned vector is the Increment of the value
+    that was stored, strictly After it, and it is what the wrapper holds afterwards. Only allocation. *)
+Theorem C16_atomic_increment iter fuel p k h :
+  (forall t m, iter t m ≡ₚ map_to_list m) -> heap_wf h -> cell_ok h p ->
+  hext h (snd (a_inc iter (S fuel) p k h)) /\ heap_wf (snd (a_inc iter (S fuel) p k h)) /\
+  cell_ok (snd (a_inc iter (S fuel) p k h)) (snd (fst (a_inc iter (S fuel) p k h))) /\
+  match vinc (omap h (box_of p h)) k with
+  | Ok nv => exists v, fst (fst (a_inc iter (S fuel) p k h)) = ORet (Ok v) /\
+                       omap (snd (a_inc iter (S fuel) p k h)) v = nv /\
+                       box_of (snd (fst (a_inc iter (S fuel) p k h))) (snd (a_inc iter (S fuel) p k h)) = v /\
+                       vcompare (omap (snd (a_inc iter (S fuel) p k h)) v) (omap h (box_of p h)) = VAfter
+  | Err e => fst (fst (a_inc iter (S fuel) p k h)) = ORet (Err e) /\ snd (fst (a_inc iter (S fuel) p k h)) = p
+  end.
+Proof. exact (fun Hi => a_inc_spec iter Hi fuel p k h). Qed.
+
+(** NO LOST UPDATE. Any number of goroutines, each running any number of Increment(node_i) calls, interleaved in
+    ANY schedule at the granularity load / pointer load / pointer CAS, started on a wrapper holding [v0]. At every
+    moment: the stored vector is [v0] plus, on every node, exactly the number of successful calls completed on
+    that node; every thread's completed calls are accounted for (done + successes + errors = what it was given);
+    every successful call returned the Increment of the value it read (hence strictly After it, C16_increment). *)
+Theorem C16_atomic_no_lost_update v0 ths0 sched :
+  Forall (fun t => t_pc t = PStart /\ t_ok t = []) ths0 -> (forall t, In t ths0 -> t_errs t = 0%nat) ->
+  (forall k, vget (as_value (snd (arun_sched sched (ths0, a_init v0)))) k
+             = vget v0 k + succ_on k (fst (arun_sched sched (ths0, a_init v0)))) /\
+  Forall2 (fun t0 t => t_node t = t_node t0 /\ (t_todo t + length (t_ok t) + t_errs t = t_todo t0)%nat)
+          ths0 (fst (arun_sched sched (ths0, a_init v0))) /\
+  Forall (fun t => match t_pc t with
+                   | PStart => True
+                   | PLoaded cur nv | PCas _ cur nv => vinc cur (t_node t) = Ok nv /\ (1 <= t_todo t)%nat
+                   end /\
+                   Forall (fun p => vinc (fst p) (t_node t) = Ok (snd p)) (t_ok t))
+         (fst (arun_sched sched (ths0, a_init v0))).
+Proof. exact (atomic_no_lost_update v0 ths0 sched). Qed.
+
+(** the linearisation point: the CAS step swaps iff the box behind the pointer it loaded holds a value Equal to the
+    value Increment started from AND the wrapper still holds that pointer; it then stores exactly the vector the
+    call returns; otherwise it writes nothing and the loop starts over *)
+Theorem C16_atomic_cas_step p1 cur nv t s : t_pc t = PCas p1 cur nv ->
+  if (match vcompare (default ∅ (as_boxes s !! p1)) cur with VEqual => true | _ => false end) && (as_ptr s =? p1)
+  then as_ptr (snd (tstep t s)) = as_next s /\ as_value (snd (tstep t s)) = nv /\
+       t_ok (fst (tstep t s)) = t_ok t ++ [(cur, nv)] /\ t_pc (fst (tstep t s)) = PStart
+  else snd (tstep t s) = s /\ t_ok (fst (tstep t s)) = t_ok t /\ t_pc (fst (tstep t s)) = PStart /\
+       t_todo (fst (tstep t s)) = t_todo t.
+Proof. exact (tstep_cas p1 cur nv t s). Qed.
+(** no other step writes the shared state; an error outcome is counted and writes nothing *)
+Theorem C16_atomic_only_cas_writes t s : (forall p1 cur nv, t_pc t <> PCas p1 cur nv) -> snd (tstep t s) = s.
+Proof. exact (tstep_other t s). Qed.
+Theorem C16_atomic_error_step t s todo' e :
+  t_pc t = PStart -> t_todo t = S todo' -> vinc (as_value s) (t_node t) = Err e ->
+  tstep t s = (AThread (t_node t) todo' PStart (t_ok t) (S (t_errs t)), s).
+Proof. exact (tstep_error t s todo' e). Qed.
+
+(** * Caps and boundaries, on both sides *)
+
+(** the reader accepts nothing outside the caps ... *)
+Theorem C16_reader_within_caps bs v rest : vread bs = Ok (v, rest) -> wf_vv v.
+Proof. exact (vread_wf bs v rest). Qed.
+(** ... and the wire accepts EXACTLY the vectors within the caps *)
+Theorem C16_wire_accepts_exactly v : wf_vv v <-> exists bs, vread bs = Ok (v, []).
+Proof. exact (wire_accepts_exactly v). Qed.
+
+(** the writer checks the entry count and the addresses, not the counters *)
+Theorem C16_writer_accepts_iff v :
+  (exists bs, vwrite v = Ok bs) <->
+  N.of_nat (size v) <= max_entries /\ (forall k c, v !! k = Some c -> valid_addr k = true).
+Proof. exact (vwrite_ok_iff v). Qed.
+Theorem C16_writer_too_large_iff v : vwrite v = Err ETooLarge <-> max_entries < N.of_nat (size v).
+Proof. exact (vwrite_too_large_iff v). Qed.
+
+(** the bytes: the entry count, then every entry once, in strictly increasing byte-wise order of the address *)
+Theorem C16_wire_format v bs :
+  vwrite v = Ok bs ->
+  bs = put_u32 (N.of_nat (size v)) ++ flat_map (fun p => put_lp4 (fst p) ++ put_u64 (snd p)) (ventries v) /\
+  StronglySorted (fun p q => lex_le (fst p) (fst q) = true /\ fst p <> fst q) (ventries v) /\
+  ventries v ≡ₚ map_to_list v.
+Proof. exact (vwrite_format v bs). Qed.
+
+(** every vector the API can build (New, Increment, Merge, Compact, PruneWithMax, Read, in any combination)
+    has valid addresses and counters <= 2^63-1 ... *)
+Theorem C16_api_vectors_within_caps v :
+  api_reach v -> forall k c, v !! k = Some c -> valid_addr k = true /\ c <= max_counter.
+Proof. exact (api_reach_entries_ok v). Qed.
+(** ... so the wire accepts exactly the API-buildable vectors of at most 65535 entries *)
+Theorem C16_api_wire_agree v : (api_reach v /\ N.of_nat (size v) <= max_entries) <-> wf_vv v.
+Proof. exact (api_wire_agree v). Qed.
+
+(** the counter cap, Increment side: below 2^63-1 it succeeds and stays within the cap, at the cap it refuses *)
+Theorem C16_increment_counter_boundary v k : valid_addr k = true ->
+  (vget v k < max_counter -> exists v', vinc v k = Ok v' /\ vget v' k = vget v k + 1 /\ vget v' k <= max_counter) /\
+  (max_counter <= vget v k -> vinc v k = Err EOverflow).
+Proof. exact (vinc_boundary v k). Qed.
+Theorem C16_increment_producible_counters c :
+  (exists v k v', vinc v k = Ok v' /\ vget v' k = c) <-> 1 <= c <= max_counter.
+Proof. exact (inc_producible_iff c). Qed.
+(** the counter cap, reader side, for EVERY 64-bit counter on a one-entry encoding *)
+Theorem C16_reader_counter_boundary k c rest : valid_addr k = true -> c < 18446744073709551616 ->
+  vread (put_u32 1 ++ put_lp4 k ++ put_u64 c ++ rest) =
+  if c <=? max_counter then Ok ({[ k := c ]}, rest) else Err EOverflow.
+Proof. exact (vread_counter_boundary k c rest). Qed.
+Theorem C16_wire_counters c :
+  (exists bs v rest k, vread bs = Ok (v, rest) /\ v !! k = Some c) <-> c <= max_counter.
+Proof. exact (wire_counter_iff c). Qed.
+
+(** the ENTRY cap is enforced on the wire only: Increment of a 65535-entry vector at a new node succeeds and
+    yields a vector the writer refuses *)
+Theorem C16_increment_beyond_entry_cap v k v' :
+  N.of_nat (size v) = max_entries -> v !! k = None -> vinc v k = Ok v' -> vwrite v' = Err ETooLarge.
+Proof. exact (vinc_beyond_entry_cap v k v'). Qed.
+(** ... and this happens to a vector the wire accepts: "a vector survives serialisation unchanged" holds for every
+    vector of at most 65535 entries ([C16_roundtrip], [C16_api_wire_agree]) and is REFUTED beyond, where the writer
+    refuses (it never writes a wrong vector). The 65535 cap is the documented limit of the wire format. *)
+Theorem C16_roundtrip_beyond_entry_cap_refuted :
+  exists v k v', wf_vv v /\ N.of_nat (size v) = max_entries /\ v !! k = None /\ vinc v k = Ok v' /\
+                 vwrite v' = Err ETooLarge.
+Proof. exact entry_cap_reachable. Qed.
+
+(** PruneWithMax never invents or changes a counter; with a limit that is not exceeded it is exactly the
+    restriction to the active nodes; its result is never After its operand *)
+Theorem C16_prune_sub v act maxe k c :
+  vprune_max v act maxe !! k = Some c -> v !! k = Some c /\ k ∈ act.
+Proof. exact (vprune_sub v act maxe k c). Qed.
+Theorem C16_prune_exact v act maxe k :
+  N.of_nat (length act) <= (if (maxe <=? 0)%Z then max_entries else Z.to_N maxe) ->
+  vprune_max v act maxe !! k = if bool_decide (k ∈ act) then v !! k else None.
+Proof. exact (vprune_exact v act maxe k). Qed.
+Theorem C16_prune_below v act maxe : forall k, vget (vprune_max v act maxe) k <= vget v k.
+Proof. exact (vprune_below v act maxe). Qed.
+
+(** ** non-vacuity *)
+
+(** the oracle of the executable instance is admissible (so is the identity order) *)
+Example C16_run_iter_ok : iter_ok run_iter /\ iter_ok (fun _ m => map_to_list m).
+Proof.
+  split; intros t m; [|reflexivity]. unfold run_iter. destruct (N.odd t); [|reflexivity].
+  symmetry. apply Permutation_rev.
+Qed.
+
+(** a history in which the hypotheses of the method theorems are met by aliased objects: Compact of a vector
+    without zero entries returns the SAME map object (#1 aliases #0), its Increment does not touch either *)
+Example C16_session_example :
+  let st := fst (hsession run_iter [([97], 1)] [SCompact 0; SInc 1 [98]; SMerge 2 0]) in
+  map o_m (fst st) = [Some 0; Some 0; Some 1; Some 2] /\
+  map (fun o => map_to_list (omap (snd st) o)) (fst st)
+    = [[([97], 1)]; [([97], 1)]; [([97], 1); ([98], 1)]; [([97], 1); ([98], 1)]].
+Proof. vm_compute. split; reflexivity. Qed.
+
+(** an AtomicVersionVector meeting [cell_ok], and a run of the concurrent machine: three goroutines (two on node
+    "a", one on "b") complete 2+1+2 calls under round robin; retries happen (12 > 3 * 2 rounds of steps) *)
+Example C16_cell_example :
+  heap_wf (snd (a_new zero_obj heap0)) /\ cell_ok (snd (a_new zero_obj heap0)) (fst (a_new zero_obj heap0)).
+Proof.
+  destruct (a_new_spec zero_obj heap0 wf_heap0) as (_ & W & C & _); [|split; assumption].
+  split; cbn; discriminate.
+Qed.
+Example C16_concurrent_example :
+  match run_rr 20 ([thread0 [97] 2; thread0 [97] 1; thread0 [98] 2], a_init ∅) with
+  | Some (ths, s) => map_to_list (as_value s) = [([97], 3); ([98], 2)] /\ succ_on [97] ths = 3 /\ succ_on [98] ths = 2
+  | None => False
+  end.
+Proof. vm_compute. repeat split; reflexivity. Qed.
+
+(** the hypotheses of [C16_increment_counter_boundary]: the maximal counter is reached and not exceeded *)
+Example C16_boundary_example :
+  match vinc ({[ [97] := max_counter - 1 ]} : vv) [97] with
+  | Ok v' => map_to_list v' = [([97], max_counter)] | Err _ => False end /\
+  vinc ({[ [97] := max_counter ]} : vv) [97] = Err EOverflow /\
+  match vread (put_u32 1 ++ put_lp4 [97] ++ put_u64 max_counter) with
+  | Ok (v, rest) => map_to_list v = [([97], max_counter)] /\ rest = [] | Err _ => False end /\
+  vread (put_u32 1 ++ put_lp4 [97] ++ put_u64 (max_counter + 1)) = Err EOverflow.
+Proof. vm_compute. repeat split; reflexivity. Qed.
+
 Print Assumptions C16_compare_equal.
 Print Assumptions C16_compare_before.
 Print Assumptions C16_compare_after.
@@ -114,3 +446,39 @@ Print Assumptions C16_increment_errors.
 Print Assumptions C16_absent_is_zero.
 Print Assumptions C16_compact_equal.
 Print Assumptions C16_roundtrip.
+Print Assumptions C16_frame_keeps_values.
+Print Assumptions C16_heap_clone.
+Print Assumptions C16_heap_increment.
+Print Assumptions C16_heap_merge.
+Print Assumptions C16_heap_compare.
+Print Assumptions C16_heap_compact.
+Print Assumptions C16_heap_prune.
+Print Assumptions C16_heap_sorted_entries.
+Print Assumptions C16_heap_write.
+Print Assumptions C16_heap_read.
+Print Assumptions C16_session_refines.
+Print Assumptions C16_operands_never_modified.
+Print Assumptions C16_cache_never_filled.
+Print Assumptions C16_functional_pool_append_only.
+Print Assumptions C16_atomic_cas.
+Print Assumptions C16_atomic_increment.
+Print Assumptions C16_atomic_no_lost_update.
+Print Assumptions C16_atomic_cas_step.
+Print Assumptions C16_atomic_only_cas_writes.
+Print Assumptions C16_atomic_error_step.
+Print Assumptions C16_reader_within_caps.
+Print Assumptions C16_wire_accepts_exactly.
+Print Assumptions C16_writer_accepts_iff.
+Print Assumptions C16_writer_too_large_iff.
+Print Assumptions C16_wire_format.
+Print Assumptions C16_api_vectors_within_caps.
+Print Assumptions C16_api_wire_agree.
+Print Assumptions C16_increment_counter_boundary.
+Print Assumptions C16_increment_producible_counters.
+Print Assumptions C16_reader_counter_boundary.
+Print Assumptions C16_wire_counters.
+Print Assumptions C16_increment_beyond_entry_cap.
+Print Assumptions C16_roundtrip_beyond_entry_cap_refuted.
+Print Assumptions C16_prune_sub.
+Print Assumptions C16_prune_exact.
+Print Assumptions C16_prune_below.
